@@ -99,7 +99,13 @@ RULE = ("(1) every one of the 2400 one-argument configurations (argument kind - 
         "used for arguments that are not paths (the token, token:x, https://token/x, spliced into a missing path), for "
         "the NAMES of fixture files / directories / links at the top and inside trees (every third fixture set), for "
         "--exclude patterns (token, *token*, token*) and for --verify values built around a token (swh:1:<tok>:<hash>, "
-        "<id><tok>, ...: exit 0 / 1 / usage error as the library's own SWHID parser classifies the value)")
+        "<id><tok>, ...: exit 0 / 1 / usage error as the library's own SWHID parser classifies the value); "
+        "(9) ABSOLUTE --exclude patterns spelled under the argument's OWN spelling (<root as given>/<glob>; a relative "
+        "root made absolute by joining the working directory or with os.path.abspath) under every root spelling of (4), "
+        "in one-argument and several-argument invocations; whenever a pattern is absolute the reference is the library "
+        "on the path AS GIVEN - Directory.from_disk(path=arg, path_filter=ignore_directories_patterns(arg, patterns)) - "
+        "because such a pattern is relative to the spelling of the root it comes with (the unfiltered identifier stays "
+        "checked against the canonical object)")
 TRUSTED = ["click option parsing, os.path.*, os.scandir, dulwich and git are modelled by a table per argument kind "
            "(model/Cli.v: isfile/isdir/islink/lstat/stat/urlparse scheme/urlparse raises/Origin refuses/is-a-git-repository), "
            "not verified; which kind a string argument has is decided by calling urlparse and model.Origin on it",
@@ -108,9 +114,8 @@ TRUSTED = ["click option parsing, os.path.*, os.scandir, dulwich and git are mod
 ASSUMPTIONS = ["a FIFO (exists, neither file nor directory) designates nothing: usage error under --type auto, the only "
                "type generated for it",
                "recorded, not generated (reported to the coordinator): a tree deeper than the interpreter's recursion limit "
-               "(the library itself raises RecursionError: open finding of C06/C13); an ABSOLUTE --exclude pattern "
-               "together with a root spelled through a link (<link>/../x, <link to the parent>/x: from_disk relativises the pattern against the lexically "
-               "normalised root, so it never matches); in a recursive listing a special file (FIFO, socket, device) "
+               "(the library itself raises RecursionError: open finding of C06/C13); "
+               "in a recursive listing a special file (FIFO, socket, device) "
                "is printed with an EMPTY name because the library's node has no path: the name of such a line is not "
                "checked",
                "a link that leads nowhere (dangling chain, cycle) designates nothing when it is to be followed (usage "
@@ -788,9 +793,12 @@ def expected_ids(fx):
     return ids
 
 
-def obj_id(fx, kind, obj, excluded, argstr=None):
-    """identifier of designation `obj` (as named by the driver) for the argument of kind `kind`"""
+def obj_id(fx, kind, obj, excluded, argstr=None, xpats=None):
+    """identifier of designation `obj` (as named by the driver) for the argument of kind `kind`; xpats = (patterns,
+    argument as given, working directory): absolute patterns - the reference is the library on the path as given"""
     ids = fx["ids"]
+    if xpats and excluded and obj in ("dirpath", "dirtarget"):
+        return given_tree(fx, os.fsencode(xpats[1]), xpats[0], xpats[2])[3]
     if obj in ("nothing", "refused", "unreadable"):
         return None
     if obj == "origin" and (argstr is not None or kind in STRING_KINDS):
@@ -834,6 +842,45 @@ def canonical_tree(fx, path, excluded, patterns=None):
         assert len(dedup) == len(set(dedup)) and set(dedup) == {i for i, _ in rel}
         fx["_trees"][key] = (set(dedup), rel, top, str(d.swhid()))
     return fx["_trees"][key]
+
+
+def given_tree(fx, arg, patterns, base):
+    """The library's tree for the path AS GIVEN with the patterns AS GIVEN - Directory.from_disk(path=arg,
+    path_filter=ignore_directories_patterns(arg, patterns)), evaluated in the working directory of the run.  This is the
+    reference whenever a pattern is ABSOLUTE: such a pattern is relative to the spelling of the root it is given with.
+    Returns (ids, {(id, path relative to the top)}, canonical top, root id) like canonical_tree."""
+    key = ("given", arg, tuple(patterns), base)
+    if key not in fx["_trees"]:
+        old = os.getcwd()
+        try:
+            os.chdir(base)
+            d = _dir_id(arg, True, list(patterns))
+            top = os.path.realpath(arg)
+        finally:
+            os.chdir(old)
+        root = d.data["path"]
+        rel = set()
+        for node in d.iter_tree(dedup=False):
+            q = node.data.get("path")
+            rel.add((str(node.swhid()), None if q is None else b"" if q == root else q[len(root) + 1:]))
+        fx["_trees"][key] = ({str(n.swhid()) for n in d.iter_tree()}, rel, top, str(d.swhid()))
+    return fx["_trees"][key]
+
+
+def under_patterns(arg, suffixes, base, how):
+    """absolute patterns spelled under the SAME spelling as the argument: <root as given>/<suffix>; a relative argument
+    is made absolute by joining it to the working directory (how=0) or with os.path.abspath (how=1)"""
+    a = os.fsencode(arg)
+    if not os.path.isabs(a):
+        a = os.path.join(base, a) if not how else os.path.abspath(os.path.join(base, a))
+    elif how:
+        a = os.path.abspath(a)
+    return [os.fsdecode(a.rstrip(b"/") + b"/" + os.fsencode(sfx)) for sfx in suffixes]
+
+
+UNDER_SUFFIX = {"dir": ["sub*"], "linkdir": ["sub*"], "chain2d": ["sub*", "only_C*"], "middir": ["deep*"], "gitrepo": ["subdir"],
+                "badrefs": ["subdir", ".git"], "gitdir": ["refs"], "emptydir": ["x*"], "dir2": ["sub*"], "lt": ["sub*"],
+                "dir_sub": ["deep*"], "dir_other": ["nomatch*"]}
 
 
 def canon_rel(p, top, base):
@@ -980,7 +1027,7 @@ def kind_arg(fx, k, argstr=None):
     return os.fsdecode(fx[k])
 
 
-def cli_args(fx, cfg, row, argstr=None, idk=None):
+def cli_args(fx, cfg, row, argstr=None, idk=None, xpats=None):
     k, t, d, f, r, v, x = cfg
     args = []
     if t != "auto" or fx["spec"].get("explicit_auto"):
@@ -996,11 +1043,11 @@ def cli_args(fx, cfg, row, argstr=None, idk=None):
     if r:
         args.append("--recursive" if fx["spec"]["seed"] % 2 else "-r")
     if x:
-        for p in fx_exclude(fx):
+        for p in (xpats[0] if xpats else fx_exclude(fx)):
             args += ["--exclude", p]
     if v != "none":
         dk, dx = row["des"].split(",")
-        good = obj_id(fx, idk or k, dk, dx == "1", None if idk else argstr) or PLACEHOLDER
+        good = obj_id(fx, idk or k, dk, dx == "1", None if idk else argstr, xpats) or PLACEHOLDER
         if v == "match":
             given = good
         else:
@@ -1291,7 +1338,12 @@ def impl(case):
             assert cfg[0] == eff_kind(idk, sp["spell"], cfg[2]), "case kind is not the effective kind of the spelling"
             argstr = spelled(fx, fx[idk], sp["spell"], sp.get("rel"))
             cwd = spell_cwd(fx, idk, sp["spell"], sp.get("rel"))
-        args, arg = cli_args(fx, cfg, row, argstr, idk)
+        xpats = None
+        if case.get("xunder") and idk:
+            # --exclude <absolute pattern spelled under the argument's own spelling>
+            wd = os.fsencode(cwd) if cwd else os.fsencode(os.getcwd())
+            xpats = (under_patterns(argstr, UNDER_SUFFIX[idk], wd, case["xunder"] - 1), argstr, wd)
+        args, arg = cli_args(fx, cfg, row, argstr, idk, xpats)
         stdin = fx["stdin"] if cfg[0] == "stdin" else None
         if cfg[0] == "stdin":
             cwd = os.fsdecode(fx["root"])      # where a FILE named '-' exists: the argument '-' is still standard input
@@ -1310,11 +1362,13 @@ def impl(case):
             base = os.fsencode(cwd) if cwd else fx["root"]
             if cwd or case.get("sub"):
                 os.chdir(base)            # relative spellings are looked at from the directory the command ran in
-            res["diff_model"] = diff(run, expected(fx, cfg, row["model"], argstr, idk, base))
+            res["diff_model"] = diff(run, expected(fx, cfg, row["model"], argstr, idk, base, xpats))
             res["diff_spec"] = (res["diff_model"] if row["spec"] == row["model"]
-                                else diff(run, expected(fx, cfg, row["spec"], argstr, idk, base)))
+                                else diff(run, expected(fx, cfg, row["spec"], argstr, idk, base, xpats)))
         finally:
             os.chdir(old)
+        if xpats:
+            res["patterns"] = xpats[0]
         return res
     except Exception as e:
         import traceback
@@ -1330,7 +1384,7 @@ def canon_expected(texts):
     return sorted(ids), ids, len(pieces) - len(ids)
 
 
-def expected(fx, cfg, outcome, argstr=None, idk=None, base=None):
+def expected(fx, cfg, outcome, argstr=None, idk=None, base=None, xpats=None):
     """canonical observable that the outcome (a driver token such as print,dirpath,1,1,0) stands for; idk: the object
     of the fixture a spelled path designates (its identifiers are those of the canonical object)"""
     k = cfg[0]
@@ -1360,10 +1414,13 @@ def expected(fx, cfg, outcome, argstr=None, idk=None, base=None):
     assert parts[0] == "print"
     obj, excluded, shown, listing = parts[1], parts[2] == "1", parts[3] == "1", parts[4] == "1"
     if not listing:
-        i = origin_id(arg) if obj == "origin" else obj_id(fx, idk or k, obj, excluded, None if idk else argstr)
+        i = origin_id(arg) if obj == "origin" else obj_id(fx, idk or k, obj, excluded, None if idk else argstr, xpats)
         lines, _, other = canon_expected([i + "\t" + arg if shown else i])
         return {"exit": 0, "lines": lines, "other_lines": other}
-    ids, rel, top, _ = canonical_tree(fx, fx[idk or k], excluded)
+    if xpats and excluded:
+        ids, rel, top, _ = given_tree(fx, os.fsencode(xpats[1]), xpats[0], xpats[2])
+    else:
+        ids, rel, top, _ = canonical_tree(fx, fx[idk or k], excluded)
     return {"exit": 0, "listing": True, "ids": ids, "rel": rel, "top": top, "base": base or fx["root"], "shown": shown,
             "other_lines": 0}
 
@@ -1433,8 +1490,16 @@ GENERIC = ["sub*", "*/deep*", "empty*", "copy*", "only_*", "nomatch*", "*/only_*
            "../*", "nest", "nest/n/n", "fifo*", "*\udcff*", "only_*\udce9*", "*\udcc3(*"]
 
 
-def resolve_patterns(fx, patterns):
-    return [os.fsdecode(ref_path(fx, q[5:])) if q.startswith("@abs:") else q for q in patterns]
+def resolve_patterns(fx, patterns, m=None, base=None):
+    out = []
+    for q in patterns:
+        if q.startswith("@abs:"):
+            q = os.fsdecode(ref_path(fx, q[5:]))
+        elif q.startswith("@under:"):
+            _, k, how, sfx = q.split(":", 3)      # under the spelling of argument k
+            q = under_patterns(m_arg(fx, m, int(k)), [sfx], base, int(how))[0]
+        out.append(q)
+    return out
 
 
 _MANY = {}
@@ -1499,7 +1564,7 @@ def ref_dir(fx, ref, patterns):
     return canonical_tree(fx, ref_path(fx, ref), bool(patterns), list(patterns))
 
 
-def ref_obj_id(fx, ref, obj, excluded, patterns, arg=None):
+def ref_obj_id(fx, ref, obj, excluded, patterns, arg=None, given=None):
     """the identifier the library computes for designation `obj` of the argument `ref`"""
     from swh.model import model as M
     ids = fx["ids"]
@@ -1511,6 +1576,9 @@ def ref_obj_id(fx, ref, obj, excluded, patterns, arg=None):
     if obj in ("empty", "stdin", "snapshot"):
         return ids[obj]
     if obj in ("dirpath", "dirtarget"):
+        if excluded and given is not None and any(os.path.isabs(os.fsencode(q)) for q in patterns):
+            # an absolute pattern is relative to the spelling of the root it is given with: the library on the path AS GIVEN
+            return given_tree(fx, os.fsencode(arg), patterns, given)[3]
         return ref_dir(fx, ref, patterns if excluded else [])[3]
     if obj == "origin":
         return origin_id(arg if arg is not None else ref_arg(fx, ref))
@@ -1537,7 +1605,7 @@ def many_args(fx, m):
                              1 if m["patterns"] else 0])
             dk, dx = row["des"].split(",")
             if dk not in ("nothing", "refused", "unreadable"):
-                good = ref_obj_id(fx, m["args"][0], dk, dx == "1", m["patterns"], m_arg(fx, m, 0)) or good
+                good = ref_obj_id(fx, m["args"][0], dk, dx == "1", m["patterns"], m_arg(fx, m, 0), m.get("_wd")) or good
         args += ["--verify", good if m["ver"] == "match" else non_matching(good, len(m["args"]))]
     objs = [m_arg(fx, m, i) for i in range(len(m["args"]))]
     if any(o.startswith("-") and o != "-" for o in objs):
@@ -1554,12 +1622,15 @@ def expected_many(fx, m, run):
     if end.startswith("crash"):
         exp["exc"] = end.split(",")[1]
     if len(lines) == 1 and lines[0][3] == "1":         # -r: the listing of the FIRST argument
-        ids, rel, top, _ = ref_dir(fx, m["args"][0], m["patterns"] if lines[0][1] == "1" else [])
+        if lines[0][1] == "1" and m.get("_wd") is not None and any(os.path.isabs(os.fsencode(q)) for q in m["patterns"]):
+            ids, rel, top, _ = given_tree(fx, os.fsencode(m_arg(fx, m, 0)), m["patterns"], m["_wd"])
+        else:
+            ids, rel, top, _ = ref_dir(fx, m["args"][0], m["patterns"] if lines[0][1] == "1" else [])
         exp.update({"listing": True, "ids": ids, "rel": rel, "top": top, "base": fx["root"], "shown": lines[0][2] == "1"})
         return exp
     out = []
     for k, (ref, (obj, ex, sh, ls)) in enumerate(zip(m["args"], lines)):
-        i = ref_obj_id(fx, ref, obj, ex == "1", m["patterns"], m_arg(fx, m, k))
+        i = ref_obj_id(fx, ref, obj, ex == "1", m["patterns"], m_arg(fx, m, k), m.get("_wd"))
         if i is None:                                  # -t origin <something model.Origin refuses> (out of scope):
             exp.update({"exit": 2})                    # the usage error of a refused URL, after the lines before it
             exp.pop("exc", None)
@@ -1602,7 +1673,9 @@ def diff_many(obs, exp):
 def impl_many(case):
     fx = get_fixture(case["fx"])
     m = dict(case["multi"])
-    m["patterns"] = resolve_patterns(fx, m["patterns"])
+    wd = fx["root"] if m.get("rel") or "stdin" in m["args"] else os.fsencode(os.getcwd())
+    m["patterns"] = resolve_patterns(fx, m["patterns"], m, wd)
+    m["_wd"] = wd
     row = many_row(m)
     args, opts = many_args(fx, m)
     stdin = fx["stdin"] if "stdin" in m["args"] else None
@@ -1752,11 +1825,13 @@ def gen_many(rng, fx, n):
                 spells.append(rng.choice(pool + ["uplink"] * (0 if r in NOT_IN_ROOT else 3)) if pool else "plain")
             m["spells"] = spells
             m["rel"] = rng.choice([0, 1])
-            if "uplink" in spells or "vialink" in spells:
-                # reported, not generated: an ABSOLUTE pattern is made relative to the LEXICALLY normalised root
-                # (from_disk.extract_regex_objs: os.path.abspath/relpath), so with a root spelled through a link
-                # (link/../x, link-to-parent/x) a pattern given by its canonical path never matches
-                m["patterns"] = [q for q in m["patterns"] if not q.startswith("@abs:")]
+        # absolute patterns: spelled under the spelling of one of the directory arguments (the reference is then the
+        # library on every path as given)
+        dirs = [i for i, r in enumerate(m["args"]) if r in UNDER_SUFFIX]
+        if dirs and rng.random() < 0.3:
+            for _ in range(rng.choice([1, 1, 2])):
+                i = rng.choice(dirs)
+                m["patterns"] = m["patterns"] + ["@under:%d:%d:%s" % (i, rng.choice([0, 1]), rng.choice(UNDER_SUFFIX[m["args"][i]]))]
         cases.append({"fx": fx, "multi": m})
     return cases
 
@@ -1862,6 +1937,16 @@ def gen_spellings(rng, fx, tier):
                     if rng.random() < 0.3:
                         c["oform"] = rng.randrange(1, 10 ** 6)
                     cases.append(c)
+                if obj in UNDER_SUFFIX:
+                    # an ABSOLUTE exclusion pattern spelled under the argument's own spelling
+                    for how in ((1, 2) if tier == "thorough" else (rng.choice([1, 2]),)):
+                        t, d, f, r, v = rng.choice([("auto", 1, 1, 0, "none"), ("auto", 1, 0, 0, "match"),
+                                                    ("directory", 1, 1, 1, "none"), ("auto", 0, 1, 0, "none"),
+                                                    ("auto", 1, 1, 1, "none")])
+                        k = eff_kind(obj, spell, d)
+                        if k in ("dir", "linkdir", "gitrepo", "badrefs"):
+                            cases.append({"fx": fx, "cfg": [k, t, d, f, r, v, 1], "xunder": how,
+                                          "path": {"obj": obj, "spell": spell, "rel": rel}})
                     if spell != "plain":
                         subs.append(dict(c, sub=1))
     return cases + rng.sample(subs, 4 if tier == "quick" else 15)
@@ -1963,6 +2048,8 @@ def classify(c):
     row = table_row(c["cfg"])
     ks = ["kind=" + k, "type=" + t, "model=" + row["model"].split(",")[0],
           "in-scope" if row["inscope"] == "1" else "out-of-scope"]
+    if "xunder" in c:
+        ks.append("absolute-pattern-under-the-argument's-spelling")
     if "path" in c:
         ks.append("spelling=%s%s" % (c["path"]["spell"], ":relative" if c["path"].get("rel") else ""))
         ks.append("spelt:%s->%s" % (c["path"]["obj"], k))
@@ -2069,6 +2156,8 @@ def shrink(c):
     extra = {"argstr": c["argstr"]} if "argstr" in c else {}
     if "path" in c:
         extra["path"] = c["path"]
+    if "xunder" in c:
+        extra["xunder"] = c["xunder"]
     if c.get("sub"):
         yield dict({"fx": c["fx"], "cfg": c["cfg"]}, **extra)
     for i, dflt in ((1, "auto"), (2, 1), (3, 1), (4, 0), (5, "none"), (6, 0)):
